@@ -73,7 +73,7 @@ def handle : List String → Option String
     match parseAccept ak, ovh.toNat?, cn.toNat?, SrvD.parseResp resp with
     | some accept, some ovh, some cn, some r =>
       let (h, b) := Srv.render r
-      let lens := if b.isEmpty then [h.length] else [h.length, b.length]
+      let lens := h.length :: bodyWriteSizes Gen.responseWriteChunk b.length
       some s!"ok hdr={toHex h} body={toHex b} blen={b.length} {wrapLine accept ovh cn lens}"
     | _, _, _, _ => some "bad-op"
   | ["c06", ak, ovh, cn, "n", resp, blen] =>
@@ -81,7 +81,7 @@ def handle : List String → Option String
     match parseAccept ak, ovh.toNat?, cn.toNat?, SrvD.parseResp resp, blen.toNat? with
     | some accept, some ovh, some cn, some r, some bl =>
       let (h, _) := Srv.render r
-      let lens := if bl = 0 then [h.length] else [h.length, bl]
+      let lens := h.length :: bodyWriteSizes Gen.responseWriteChunk bl
       some s!"ok hdr={toHex h} body=? blen={bl} {wrapLine accept ovh cn lens}"
     | _, _, _, _, _ => some "bad-op"
   | ["tlsver", path, lo, hi] =>
